@@ -298,7 +298,7 @@ package syncer
 //@   assert at call sendFuncOnce: a_batch_a_cluster_node_redirected_in_transactional_mode_is_not_sent_again [C19 C01]: !(redirected == 1 && ro.cfg.CanTransaction && ro.cfg.Redis.Type == config.RedisTypeCluster)
 //@   loop 1:
 //@     invariant retry: queueClean(cmdQueue) && cpArmed == 0 && (tCpHigh == old(tCpHigh) || (shouldUpdateCP && tCpHigh == lastOffset))
-//@     invariant no_second_attempt_after_a_redirect_in_transactional_cluster_mode: !(redirected == 1 && ro.cfg.CanTransaction && ro.cfg.Redis.Type == config.RedisTypeCluster)
+//@     invariant no_second_attempt_after_a_redirect_in_transactional_cluster_mode [C19 C01 C02]: !(redirected == 1 && ro.cfg.CanTransaction && ro.cfg.Redis.Type == config.RedisTypeCluster)
 
 // ---- the sender's event loop -------------------------------------------------------------
 //   pending  offset of the item received in this iteration that is neither queued nor
